@@ -67,6 +67,28 @@ Fixpoint obs_pv (ft : float_tbl) (v : pv) {struct v} : list Z :=
   | PCode ints objs => 16 :: ints ++ List.concat (obs_list objs)
   end.
 
+(* PyPy 3.2 (magic 3187, written '0' + 12) marshals the names, variable names, file name and name of a code object as 's' byte strings;
+   load_code hands them out as text, as the interpreter sees them (unmarshal.py t_code: names_bytes_for_s).  The reader model keeps the
+   bytes; this adapter, applied to what the model read from a PyPy 3.2 payload, is how the correspondence states that convention:
+   in every code object of the tree, byte strings in those six fields (inside their tuples) become text; constants are left alone. *)
+Definition bin_to_text (v : pv) : pv := match v with PBin b => PText b | _ => v end.
+Definition names_to_text (v : pv) : pv :=
+  match v with PTuple l => PTuple (map bin_to_text l) | PList l => PList (map bin_to_text l) | _ => bin_to_text v end.
+Fixpoint pypy32_fix (v : pv) : pv :=
+  let all := fix go (l : list pv) : list pv := match l with [] => [] | x :: r => pypy32_fix x :: go r end in
+  match v with
+  | PTuple l => PTuple (all l) | PList l => PList (all l) | PSet l => PSet (all l) | PFrozenSet l => PFrozenSet (all l)
+  | PCode ints [code; consts; names; varn; freev; cellv; fname; name; qn; lnotab; exc] =>
+      PCode ints [code; pypy32_fix consts; names_to_text names; names_to_text varn; names_to_text freev; names_to_text cellv;
+                  bin_to_text fname; bin_to_text name; qn; lnotab; exc]
+  | _ => v
+  end.
+Definition obs_load_pypy32 (c : cfg) (ft : float_tbl) (bs : list Z) : list Z :=
+  match load c bs with
+  | Err e => [1; err_code e]
+  | Ok (v, st) => 0 :: zlen (inp st) :: obs_pv ft (pypy32_fix v)
+  end.
+
 (* value, then how many bytes were left unread *)
 Definition obs_load (c : cfg) (ft : float_tbl) (bs : list Z) : list Z :=
   match load c bs with
